@@ -80,14 +80,14 @@ class G:
         if k < 73:
             return N.ASTCaseValueExpression(case_value=self.expr(d + 1), cases=tuple(N.ASTCaseValueItem(when=self.expr(d + 1), then=self.expr(d + 1)) for _ in range(self.n(1, 2))),
                                             else_value=self.opt(lambda: self.expr(d + 1)))
-        if k < 77: return N.ASTSubQueryExpression(statement=self.select(d + 2))
+        if k < 75: return N.ASTSubQueryExpression(statement=self.select(d + 2))
         if k < 82:
             rows = None
-            if self.p(0.4):
+            if self.p(0.6):
                 def item():
                     t = self.ch(list(S.EnumWindowRowType))
                     if t == S.EnumWindowRowType.CURRENT_ROW: return N.ASTWindowRowItem(row_type=t)
-                    return N.ASTWindowRowItem(row_type=t, is_unbounded=True) if self.p(0.4) else N.ASTWindowRowItem(row_type=t, row_num=self.n(0, 9))
+                    return N.ASTWindowRowItem(row_type=t, is_unbounded=True) if self.p(0.4) else N.ASTWindowRowItem(row_type=t, row_num=self.ch([0, 0, 1, 2, 9]))
                 rows = N.ASTWindowRow(from_row=item(), to_row=item())
             return N.ASTWindowExpression(window_function=self.func(d, allow_schema=False), partition_by_columns=tuple(self.cexpr(d + 1) for _ in range(self.n(0, 2))),
                                          order_by_columns=tuple(self.order_col(d + 1) for _ in range(self.n(0, 2))), row_expression=rows)
@@ -191,7 +191,7 @@ class G:
             lateral_view_clauses=lat, join_clauses=tuple(joins), where_clause=self.opt(lambda: N.ASTWhereClause(condition=self.expr(d + 1)), 0.5), group_by_clause=gb,
             having_clause=self.opt(lambda: N.ASTHavingClause(condition=self.expr(d + 1)), 0.2),
             order_by_clause=self.opt(lambda: N.ASTOrderByClause(columns=tuple(self.order_col(d + 2) for _ in range(self.n(1, 2)))), 0.3),
-            limit_clause=self.opt(lambda: N.ASTLimitClause(limit=self.n(0, 50), offset=self.opt(lambda: self.n(0, 50))), 0.3), **hive_kw)
+            limit_clause=self.opt(lambda: N.ASTLimitClause(limit=self.ch([0, 1, 7, 50]), offset=self.opt(lambda: self.ch([0, 0, 1, 30]))), 0.3), **hive_kw)
 
     def with_clause(self, d):
         N = self.N
@@ -235,8 +235,8 @@ class G:
     def index(self, cls, named=True):
         N = self.N
         return cls(name=self.ch(["`uk`", "idx1", "`k y`"]) if named else None,
-                   columns=tuple(N.ASTIndexColumn(name=self.ch(["a", "b", "k y"]), max_length=self.opt(lambda: self.n(1, 20), 0.3)) for _ in range(self.n(1, 2))),
-                   using=self.opt(lambda: "BTREE", 0.3), comment=self.opt(lambda: "'ic'", 0.2), key_block_size=self.opt(lambda: self.n(1, 16), 0.2))
+                   columns=tuple(N.ASTIndexColumn(name=self.ch(["a", "b", "k y"]), max_length=self.opt(lambda: self.ch([0, 1, 20]), 0.3)) for _ in range(self.n(1, 2))),
+                   using=self.opt(lambda: "BTREE", 0.3), comment=self.opt(lambda: "'ic'", 0.2), key_block_size=self.opt(lambda: self.ch([0, 1, 16]), 0.2))
 
     def foreign_key(self):
         N = self.N
@@ -252,7 +252,7 @@ class G:
             return N.ASTCreateTableStatement(primary_key=self.opt(lambda: self.index(N.ASTPrimaryIndexExpression, named=False), 0.4),
                                              unique_key=tuple(self.index(N.ASTUniqueIndexExpression) for _ in range(self.ch([0, 0, 1]))), key=tuple(self.index(N.ASTNormalIndexExpression) for _ in range(self.ch([0, 0, 1, 2]))),
                                              fulltext_key=tuple(self.index(N.ASTFulltextIndexExpression) for _ in range(self.ch([0, 0, 0, 1]))), foreign_key=tuple(self.foreign_key() for _ in range(self.ch([0, 0, 1]))),
-                                             partitioned_by=(), engine=self.opt(lambda: "InnoDB", 0.4), auto_increment=self.opt(lambda: self.n(1, 99), 0.2), default_charset=self.opt(lambda: "utf8mb4", 0.3),
+                                             partitioned_by=(), engine=self.opt(lambda: "InnoDB", 0.4), auto_increment=self.opt(lambda: self.ch([0, 1, 99]), 0.2), default_charset=self.opt(lambda: "utf8mb4", 0.3),
                                              collate=self.opt(lambda: "utf8_bin", 0.2), row_format=self.opt(lambda: "DYNAMIC", 0.2), states_persistent=self.opt(lambda: "1", 0.1), tblproperties=(), **common)
         return N.ASTCreateTableStatement(primary_key=None, unique_key=(), key=(), fulltext_key=(), foreign_key=(), partitioned_by=tuple(self.coldef(False) for _ in range(self.ch([0, 0, 1, 2]))),
                                          engine=None, auto_increment=None, default_charset=None, collate=None, row_format=None, states_persistent=None,
@@ -294,7 +294,7 @@ class G:
             return N.ASTUpdateStatement(with_clause=self.with_clause(1), table_name=self.table_name(),
                                         set_clause=N.ASTUpdateSetClause(columns=tuple(N.ASTUpdateSetColumn(column_name=self.ch(NAMES), column_value=self.expr(1)) for _ in range(self.n(1, 3)))),
                                         where_clause=self.opt(lambda: N.ASTWhereClause(condition=self.expr(1))), order_by_clause=self.opt(lambda: N.ASTOrderByClause(columns=(self.order_col(2),)), 0.3),
-                                        limit_clause=self.opt(lambda: N.ASTLimitClause(limit=self.n(0, 9), offset=self.opt(lambda: self.n(0, 9))), 0.3))
+                                        limit_clause=self.opt(lambda: N.ASTLimitClause(limit=self.ch([0, 1, 9]), offset=self.opt(lambda: self.ch([0, 1, 9]))), 0.3))
         if k < 66:
             return N.ASTDeleteStatement(table_name=self.table_name(), where_clause=self.opt(lambda: N.ASTWhereClause(condition=self.expr(1))),
                                         order_by_clause=self.opt(lambda: N.ASTOrderByClause(columns=(self.order_col(2),)), 0.3), limit_clause=self.opt(lambda: N.ASTLimitClause(limit=self.n(0, 9), offset=None), 0.3))
